@@ -1015,6 +1015,49 @@ def run_scenario(sc):
     return [({"kind": k, "fam": sc.get("fam", "tree")}, t) for k, t in probs]
 
 
+
+def handler_probes():
+    """an action whose body completes normally *while the caller is handling another exception* (inside `except:` / a `finally:` during
+    propagation) must still end 'succeeded' with its success fields: the end status is 'failed' exactly when an exception escaped the body
+    (found missing by seeded change C03-4)"""
+    from eliot import start_action, Logger
+    import eliot._output as _o
+    out = []; n = 0
+    def collect(run):
+        msgs = []
+        saved = Logger._destinations
+        Logger._destinations = d = _o.Destinations()
+        try:
+            d.add(msgs.append); run()
+        finally:
+            Logger._destinations = saved
+        return msgs
+    def with_style():
+        with start_action(action_type="probe") as a:
+            a.add_success_fields(done=1)
+    def explicit_style():
+        a = start_action(action_type="probe"); a.add_success_fields(done=1); a.finish()
+    def run_style():
+        a = start_action(action_type="probe"); a.run(lambda: a.add_success_fields(done=1)); a.finish()
+    def in_except(body):
+        try: raise KeyError("outer")
+        except KeyError: body()
+    def in_finally(body):
+        try:
+            try: raise KeyError("outer")
+            finally: body()
+        except KeyError: pass
+    for sname, body in (("with", with_style), ("explicit-finish", explicit_style), ("run-then-finish", run_style)):
+        for wname, where in (("except", in_except), ("finally-during-propagation", in_finally)):
+            n += 1
+            msgs = collect(lambda: where(body))
+            ends = [m for m in msgs if m.get("action_type") == "probe" and m.get("action_status") != "started"]
+            ok = len(ends) == 1 and ends[0].get("action_status") == "succeeded" and ends[0].get("done") == 1 and "exception" not in ends[0]
+            if not ok:
+                out.append(({"clause": "end-status-truthful", "family": "successful-action-inside-a-handler", "style": sname, "where": wname},
+                            "end messages: %s" % short([{k: v for k, v in m.items() if k not in ("timestamp", "task_uuid")} for m in ends])))
+    return n, out
+
 def main():
     t0 = time.time()
     fails = {}; known = {}; cases = 0; seen = set(); nfailing = 0
@@ -1024,6 +1067,13 @@ def main():
         scs = enumerate_scenarios(args.tier, args.seed)
     budget = 33 if args.tier == "quick" else 800
     truncated = False
+    if not args.scenario:
+        pn, pf = handler_probes()
+        cases += pn
+        for sig, text in pf:
+            k = json.dumps(sig, sort_keys=True)
+            if k not in fails and len(fails) < 5:
+                fails[k] = {"signature": sig, "scenario": {"probe": "handler", "style": sig["style"], "where": sig["where"]}, "observed": [text]}
     for sc in scs:
         sc = normalize(sc)
         key = json.dumps(sc, sort_keys=True)
@@ -1053,7 +1103,7 @@ def main():
     depth = "1..5"
     print(json.dumps({
         "cases": cases, "distinct": len(seen), "failures": list(fails.values())[:5], "known": list(known.values()),
-        "bound": "nests of depth %s (exhaustive at depth 1 over 5 ways to make x 7 ways to scope/finish x 31 body exits incl. 27 exception "
+        "bound": "6 probes of a successful action finished while the caller handles another exception; nests of depth %s (exhaustive at depth 1 over 5 ways to make x 7 ways to scope/finish x 31 body exits incl. 27 exception "
                  "classes, exhaustive at depth 2 over a 4x4x3 alphabet, sampled at depth 3-5); extractor histories over a 5-class diamond "
                  "hierarchy under 5 builtin roots, exhaustive up to length %d, random up to 8; 0-3 repeated finishes per action; tier=%s seed=%d%s"
                  % (depth, 3 if args.tier == "quick" else 4, args.tier, args.seed, " (stopped at the time budget)" if truncated else ""),
